@@ -285,6 +285,30 @@ Section WP.
       rewrite E in *. repeat split; try assumption.
       intros K. rewrite A0. rewrite fill_tavg_keep; rewrite E; [reflexivity | exact K].
     Qed.
+
+    (* a sentinel on the first / last cell of what is loaded (no previous or no next cell) becomes 0 *)
+    Lemma edge_lemma ps1 ps2 st y i :
+      inb st y i -> ~ In (y, i) ps1 -> ~ In (y, i) ps2 ->
+      prevpos st y i = None \/ nextpos st yrz y i = None ->
+      eqb (w_tavg (cell st y i)) none = true ->
+      w_tavg (cell (run (ps1 ++ (y, i) :: ps2) st) y i) = zero.
+    Proof.
+      intros [By Bi] H1 H2 Hpn Hc.
+      rewrite run_at by assumption.
+      set (st1 := run ps1 st).
+      assert (By1 : (y < length st1)%nat) by (unfold st1; rewrite run_length; exact By).
+      assert (Bi1 : (i < length (s_cells (slot_at st1 y)))%nat).
+      { unfold st1. clear -Bi. revert st Bi. induction ps1 as [|p ps IH]; intros st Bi; [exact Bi|].
+        cbn [fold_left]. apply IH. destruct p as [a b]. unfold rm_at. rewrite cells_len_set_cell. exact Bi. }
+      destruct (rm_at_same st1 y i By1 Bi1) as (A & _). rewrite A.
+      unfold fill_tavg.
+      rewrite (prevpos_ext st st1) by (intros; apply run_maxd).
+      rewrite (nextpos_ext st st1) by (intros; apply run_maxd).
+      unfold st1. rewrite (run_other ps1 st y i H1). rewrite Hc.
+      destruct Hpn as [Hp | Hn].
+      - rewrite Hp. reflexivity.
+      - rewrite Hn. destruct (prevpos st y i) as [[py pi]|]; reflexivity.
+    Qed.
   End Replace.
 
   (* the positions of the pass are pairwise distinct *)
@@ -380,6 +404,108 @@ Section WP.
   Proof. apply run_length. Qed.
   Lemma replace_wf none yrz (st : store) : wf st -> wf (replace_missing none yrz st).
   Proof. apply run_wf. Qed.
+
+  Lemma edge_replace none yrz (st : store) y i :
+    wf st -> (yrz <= length st)%nat -> (y < yrz)%nat -> (i < Z.to_nat (maxd_at st y))%nat ->
+    prevpos st y i = None \/ nextpos st yrz y i = None ->
+    eqb (w_tavg (cell st y i)) none = true ->
+    w_tavg (cell (replace_missing none yrz st) y i) = zero.
+  Proof.
+    intros W L Hy Hi Hpn Hc. unfold replace_missing.
+    assert (Hin : In (y, i) (positions st yrz)) by (apply positions_In; split; assumption).
+    destruct (split_once _ _ Hin (positions_NoDup st yrz)) as (l1 & l2 & E & N1 & N2). rewrite E.
+    apply edge_lemma; auto. apply (wf_inb st yrz); assumption.
+  Qed.
+
+  (* ---------------------------------------------------------------- *)
+  (* optional columns of a year file (VERD, SUND, ETNULL since F34): WeatherModel.opt_year            *)
+
+  Lemma nth_firstn_lt {A} (l : list A) n i d : (i < n)%nat -> nth i (firstn n l) d = nth i l d.
+  Proof.
+    revert n i. induction l as [|a l IH]; intros n i H.
+    - rewrite firstn_nil. reflexivity.
+    - destruct n; [lia|]. destruct i; [reflexivity|]. cbn. apply IH. lia.
+  Qed.
+
+  Lemma col_slot_wf vals : (length vals <= 366)%nat -> wf [col_slot vals].
+  Proof.
+    intros H y Hy. cbn in Hy. assert (y = 0%nat) by lia. subst y.
+    unfold slot_at, maxd_at, slot_at, col_slot. cbn [nth s_cells s_maxd].
+    rewrite app_length, map_length, repeat_length. split; lia.
+  Qed.
+
+  Lemma col_slot_maxd vals : Z.to_nat (maxd_at [col_slot vals] 0) = length vals.
+  Proof. unfold maxd_at, slot_at, col_slot. cbn [nth s_maxd]. apply Nat2Z.id. Qed.
+
+  Lemma cell_col vals i : (i < length vals)%nat -> w_tavg (cell [col_slot vals] 0 i) = nth i vals zero.
+  Proof.
+    intros H. unfold cell, slot_at, col_slot. cbn [nth s_cells].
+    rewrite app_nth1 by (rewrite map_length; exact H).
+    change (@wzero T NT) with (lift_col zero) at 1.
+    rewrite (map_nth lift_col). reflexivity.
+  Qed.
+
+  Lemma opt_year_nth none vals i :
+    (i < length vals)%nat ->
+    nth i (opt_year none vals) zero = w_tavg (cell (replace_missing none 1 [col_slot vals]) 0 i).
+  Proof.
+    intros H. unfold opt_year.
+    change (@zero T NT) with (w_tavg (@wzero T NT)) at 1.
+    rewrite (map_nth w_tavg). rewrite nth_firstn_lt by exact H. reflexivity.
+  Qed.
+
+  (* a present value of an optional column reaches the model unchanged *)
+  Lemma optional_keep_lemma none vals i :
+    (i < length vals)%nat -> (length vals <= 366)%nat ->
+    eqb (nth i vals zero) none = false -> nth i (opt_year none vals) zero = nth i vals zero.
+  Proof.
+    intros Hi Hl Hv. rewrite opt_year_nth by exact Hi.
+    destruct (replace_fields none 1 [col_slot vals] 0 i) as (_ & _ & _ & _ & _ & _ & K).
+    - apply col_slot_wf; exact Hl.
+    - cbn; lia.
+    - lia.
+    - rewrite col_slot_maxd; exact Hi.
+    - rewrite K; rewrite cell_col by exact Hi; [reflexivity | exact Hv].
+  Qed.
+
+  (* a sentinel between two present values of the same year file becomes their mean *)
+  Lemma optional_gapfill_lemma none vals i :
+    (S (S i) < length vals)%nat -> (length vals <= 366)%nat ->
+    eqb (nth (S i) vals zero) none = true ->
+    eqb (nth i vals zero) none = false -> eqb (nth (S (S i)) vals zero) none = false ->
+    nth (S i) (opt_year none vals) zero = div (add (nth i vals zero) (nth (S (S i)) vals zero)) two.
+  Proof.
+    intros Hi Hl Hc Hp Hn. rewrite opt_year_nth by lia.
+    rewrite (gapfill_replace none 1 [col_slot vals] 0 (S i) 0 i 0 (S (S i))).
+    - rewrite !cell_col by lia. reflexivity.
+    - apply col_slot_wf; exact Hl.
+    - cbn; lia.
+    - lia.
+    - rewrite col_slot_maxd; lia.
+    - reflexivity.
+    - apply nextpos_inside. rewrite col_slot_maxd; lia.
+    - rewrite cell_col by lia; exact Hc.
+    - rewrite cell_col by lia; exact Hp.
+    - rewrite cell_col by lia; exact Hn.
+  Qed.
+
+  (* a sentinel on the first or the last record of the year file becomes 0 *)
+  Lemma optional_edge_lemma none vals i :
+    (i < length vals)%nat -> (length vals <= 366)%nat -> i = 0%nat \/ S i = length vals ->
+    eqb (nth i vals zero) none = true -> nth i (opt_year none vals) zero = zero.
+  Proof.
+    intros Hi Hl He Hc. rewrite opt_year_nth by exact Hi.
+    apply edge_replace.
+    - apply col_slot_wf; exact Hl.
+    - cbn; lia.
+    - lia.
+    - rewrite col_slot_maxd; exact Hi.
+    - destruct He as [-> | He].
+      + left. reflexivity.
+      + right. unfold nextpos. rewrite col_slot_maxd.
+        replace (length vals <=? i + 1)%nat with true by (symmetry; apply Nat.leb_le; lia). reflexivity.
+    - rewrite cell_col by exact Hi; exact Hc.
+  Qed.
 
   (* ---------------------------------------------------------------- *)
   (* transformWeatherData                                              *)
